@@ -13,9 +13,10 @@ def generate(tier, seed):
     g3 = C.run_tlc("Gen_Project", "Gen_Project_graphs3", workers=4, timeout=900, heap="8g").json_lines("REPLAY")
     ge = C.run_tlc("Gen_Project", "Gen_Project_edges", workers=4, timeout=900, heap="8g").json_lines("REPLAY")
     gl = C.run_tlc("Gen_Project", "Gen_Project_layouts", workers=4, timeout=900, heap="8g").json_lines("REPLAY")
-    if len(g3) < 3000 or len(ge) < 3000 or len(gl) < 2560:
-        raise C.ToolError("graph generation incomplete: %d %d %d" % (len(g3), len(ge), len(gl)))
-    total = (len(g3), len(ge), len(gl))
+    gd = C.run_tlc("Gen_Project", "Gen_Project_derives", workers=4, timeout=900, heap="8g").json_lines("REPLAY")
+    if len(g3) < 3000 or len(ge) < 3000 or len(gl) < 2560 or len(gd) < 3456:
+        raise C.ToolError("graph generation incomplete: %d %d %d %d" % (len(g3), len(ge), len(gl), len(gd)))
+    total = (len(g3), len(ge), len(gl), len(gd))
     rnd = random.Random(seed)
     if tier == "quick":
         g3 = rnd.sample(g3, 500)
@@ -46,7 +47,19 @@ def generate(tier, seed):
                 seen.add(k)
                 pick.append(c)
         gl = pick
-    return g3 + ge + gl, total
+        # derive spellings: every spelling at every node of each shape, and every (spelling of A, spelling of B) pair
+        seen = set()
+        pick = []
+        rnd.shuffle(gd)
+        for c in gd:
+            dk = c["derive"]
+            shape = len(c["edges"]["A"])
+            ks = [("n", n, dk[n], shape) for n in ("A", "B", "C")] + [("ab", dk["A"], dk["B"], shape)]
+            if any(k not in seen for k in ks):
+                seen.update(ks)
+                pick.append(c)
+        gd = pick
+    return g3 + ge + gl + gd, total
 
 
 def observe(d, cases, modes=("none", "zod"), repeats=1):
